@@ -470,7 +470,7 @@ def check_symbols_minute_major(repo, rep):
     enters the available margin at a fill must be priced at that minute; the fast simulator replays a whole chunk per symbol, so the
     other symbol is already priced at the chunk's last close (the construct decided by C02-R7)"""
     from props.c02 import check_symbol_interleaving
-    check_symbol_interleaving(repo, rep, rid="C03-R7")
+    check_symbol_interleaving(repo, rep, rid="C03-R7", protocol=False)
 
 
 def run(repo: Repo, rep, tier: str):
